@@ -2641,7 +2641,9 @@ private:
       }
       if (_config.serverTls.verifyPeer)
       {
-        ::SSL_CTX_set_verify(_sslSrv, SSL_VERIFY_PEER, nullptr);
+        // Requiring client certificates means a client that presents none is
+        // rejected; SSL_VERIFY_PEER alone only verifies a certificate IF one is sent.
+        ::SSL_CTX_set_verify(_sslSrv, SSL_VERIFY_PEER | SSL_VERIFY_FAIL_IF_NO_PEER_CERT, nullptr);
         if (!_config.serverTls.caFile.empty() || !_config.serverTls.caPath.empty())
         {
           if (::SSL_CTX_load_verify_locations(_sslSrv,
